@@ -1,7 +1,54 @@
 """C12 — receiver queries (scheduler, allocator, stop token, custom) reach all children."""
-import itertools
+import itertools, os, re, subprocess, time
+from .. import vlib
 from ..evt import EventPart
 from ..runner import run_check
+
+
+class AllocProbePart:
+    """allocator plumbing probes on the real library (harness/evt/allocprobe.cpp): every entry point that takes an
+    allocator, or takes it from the receiver, allocates from exactly that allocator, returns the memory to it, and the
+    work it starts sees it through get_allocator(receiver).  Model-independent: the expectation is the C12 statement."""
+    name = "allocprobe"
+
+    def run(self, tier, seed, verdict, cov, driver):
+        t0 = time.time()
+        src = os.path.join(vlib.VERIF, "harness", "evt", "allocprobe.cpp")
+        try:
+            exe = vlib.build_plain(src, [os.path.relpath(f, os.path.join(vlib.REPO, "source")) for f in sorted(__import__("glob").glob(os.path.join(vlib.REPO, "source", "*.cpp")))],
+                                   (), None, sanitize="address,undefined", name="allocprobe")
+        except vlib.BuildError as e:
+            verdict.add("allocprobe:build", "allocator probes do not build against the current tree: " + str(e)[-1500:], dict(stream=self.name), found_input=False)
+            return
+        r = subprocess.run([exe], capture_output=True, text=True, timeout=300)
+        lines = [l for l in r.stdout.split("\n") if l.strip()]
+        if r.returncode != 0:
+            verdict.add("allocprobe: sanitizer abort", "the allocator probes aborted: " + r.stderr[-1500:], dict(stream=self.name, stderr=r.stderr[-3000:], completed=lines))
+        expected = ["spawn_detached_direct_v2", "spawn_detached_piped_v2", "spawn_detached_direct_v1", "spawn_future_direct_v2", "spawn_future_piped_v2",
+                    "allocate_under_with_allocator", "allocate_nested_under_with_allocator", "allocate_piped"]
+        seen = {}
+        for l in lines:
+            m = re.match(r"(\S+) given=(-?\d+) seen=(-?\d+) from_given=(\d+) from_other=(\d+) live=(-?\d+)$", l)
+            if m:
+                seen[m.group(1)] = tuple(int(x) for x in m.groups()[1:])
+        for name in expected:
+            cov["evaluations"] += 1
+            if name not in seen:
+                if r.returncode == 0:
+                    verdict.add(f"allocprobe: {name}: no result", "probe printed nothing", dict(stream=self.name, output=lines))
+                continue
+            given, saw, fg, fo, live = seen[name]
+            cov["traces_validated_against_impl"] += 1
+            payload = dict(stream=self.name, probe=name, line=[l for l in lines if l.startswith(name + " ")][0])
+            if saw != given:
+                verdict.add(f"allocprobe: {name}: get_allocator(receiver) of the started work does not answer with the allocator given",
+                            f"given allocator id {given}, the started leaf saw id {saw}", payload)
+            if fg < 1 or fo != 0:
+                verdict.add(f"allocprobe: {name}: memory not taken from the given allocator", f"allocations from the given allocator: {fg}, from other allocators of the family: {fo}", payload)
+            if live != 0:
+                verdict.add(f"allocprobe: {name}: memory not returned to the allocator", f"live allocations afterwards: {live}", payload)
+        cov["samples"].append(dict(stream=self.name, output=lines[:3]))
+        cov["parts_wall_s"][self.name] = round(time.time() - t0, 1)
 
 UN = ["then add:1", "uerr add:1", "udone 3", "md", "dao 4", "uns", "tag 9", "src", "era", "iv", "dfr", "alc"]
 # binary adaptors with the probe in the first or second position (the other child is trivial)
@@ -32,14 +79,17 @@ def stacks(tier, seed):
 
 
 def run(tier, seed, replay=None):
-    parts = [EventPart("evt", report_crashes=False, extra_cases=stacks, n_quick=1500)]
+    parts = [EventPart("evt", report_crashes=False, extra_cases=stacks, n_quick=1500), AllocProbePart()]
     return run_check(
         "C12", tier, seed, ["UnifexModel.Props.C12"], parts,
         rule="ENUMERATED: every one of 28 adaptor forms (12 unary, 8 binary with the probe as first child, 8 with the probe as second child) in every position of "
              "stacks of depth 1..3 (quick: 28+784+21952 cases) above a probe leaf that records the answer to a user-defined query CPO and the stop state it observes through "
              "its receiver; plus random expressions (see C05); every observation is compared with the Lean calculus",
         assumptions=["the user-defined query CPO stands for every receiver query forwarded by the generic tag_invoke(CPO, const R&) overload (get_scheduler, get_allocator, custom); "
-                     "get_stop_token is covered by C04", "allocate()/spawn allocator use is not modelled here"],
-        trusted_extra=["harness/evt/evt.cpp (probe leaf, type-erased children declare the custom query)", "tools/evt.py"],
+                     "get_stop_token is covered by C04",
+                     "get_allocator is additionally observed directly: the root receiver answers with a counting allocator (id 5) that every leaf must see and from which allocate() must take "
+                     "its memory (monitors alloc-query-lost / alloc-foreign / alloc-live in evt.cpp); allocator-taking entry points (spawn_detached, spawn_future, allocate under with_allocator; "
+                     "direct and piped forms) are checked by model-independent probes (allocprobe.cpp), not modelled"],
+        trusted_extra=["harness/evt/evt.cpp (probe leaf, type-erased children declare the custom query and get_allocator)", "harness/evt/allocprobe.cpp", "tools/evt.py"],
         explanation="Theorems (Props/C12): queries_forwarded (every leaf start in every run carries the documented answer: the root's or the innermost with_query_value's), "
                     "only_with_query_value_replaces, with_query_value_replaces, root_answer_everywhere; invariant TagInv proved for every algorithm clause (Calc/TagInv.lean).")
